@@ -8,6 +8,7 @@ mod gen;
 mod out;
 mod trap;
 mod c05;
+mod c11;
 mod c16;
 mod c17;
 mod c18;
@@ -68,6 +69,7 @@ fn main() {
     let mut rng = Rng::new(seed);
     match prop.as_str() {
         "C05" => c05::run(&mut out, &mut rng, tier),
+        "C11" => c11::run(&mut out, &mut rng, tier),
         "C16" => c16::run(&mut out, &mut rng, tier),
         "C17" => c17::run(&mut out, &mut rng, tier),
         "C18" => c18::run(&mut out, &mut rng, tier),
